@@ -7,13 +7,7 @@ import layoutlib as L
 import vlib
 
 MANIFEST = {
-    "text": "For each program the real VM's retired states (every storage key tree of every path) and the real analysis' layout are "
-            "compared INSIDE Coq: a program that executed no SLOAD/SSTORE must yield an empty layout, and every reported slot index must "
-            "be a constant occurring in the key expression of an executed storage access, the preimage of such a constant in the "
-            "keccak(small slot) table, or a documented proxy-slot constant. Stage theorems about the lifting passes (StorageSlot / "
-            "MappingIndex / DynamicArrayIndex are only introduced at values with a storage access; no storage access => no StorageSlot "
-            "node, for all trees) are in the lifting-pass development. Known finding K3: the mapping/array patterns are also applied "
-            "to VALUE sub-trees, so a hash-shaped stored or loaded value yields a slot; classified by a Coq predicate.",
+    "text": "For each program the real VM's retired states (every storage key tree of every path) and the real analysis' layout are compared INSIDE Coq: a program that executed no SLOAD/SSTORE must yield an empty layout, and every reported slot index must be a constant occurring in the key expression of an executed storage access, the preimage of such a constant in the keccak(small slot) table, or a documented proxy-slot constant. Stage theorems over the model of the six slot passes (tied to the real passes on every run): without a storage access the guarded passes are the identity, lifted nodes appear only at or below storage accesses (C05_lifts_only_under_access), no access => no slot node (C05_no_storage_no_slot), and outside the K3 class only in key sub-trees (C05_lifts_only_in_keys_outside_K3; K3_refuted, K3_hashed_constant) -- for ALL trees. Known finding K3: the mapping/array patterns are also applied to VALUE sub-trees, so a hash-shaped stored or loaded value yields a slot; classified by a Coq predicate.",
     "note": "Trusted: Coq kernel for the predicate; keccak table computed with the sha3 crate in the harness; harness; hook H2. The "
             "chain from layout rows back to lifted StorageSlot nodes through registration/unification is searched, not proved (partial).",
     "technique": "attribution predicate evaluated inside Coq on the real VM states and the real layout; Coq stage lemmas for the lifting "
